@@ -17,7 +17,7 @@ from vf.core import Result, through_code_under_test
 
 ID = "C18"
 LEVEL = "exploration"
-BUDGET = {"quick": 1600, "thorough": 32000}
+BUDGET = {"quick": 9600, "thorough": 96000}
 MIN_NONTRIVIAL = {"quick": 100, "thorough": 1000}
 RULE = (
     "Hypothesis draws (a) histories as in C09 (two systems, pool of states, call / assign / copy / read-only copy / "
@@ -233,7 +233,7 @@ def run_history(res, case):
 
     for op in case["ops"]:
         kind = op["op"]
-        i = op["i"] % len(pool)
+        i = (len(pool) - 1) if op["i"] == -1 else op["i"] % len(pool)   # -1 = the most recently added state
         state = pool[i]
         if kind == "call":
             ms = hist.methods_of(specs[op["sys"]])
